@@ -35,7 +35,10 @@ PROFILE = grammar.profile(
     p_auto_populate=0.3, p_multi_var_path=0.3, sig_variants=True, p_additional_binding=0.5,
     common_file_names=["resources", "common", "operation", "policy", "<noun>"], p_same_method_two_services=0.9, p_nested_name_ties=0.6,
     p_double_star_path=0.2, p_reserved_path_var=0.3, p_required_enum=0.3, p_local_empty=0.2,
-    transports=["grpc", "grpc+rest", "grpc+rest", "rest"])
+    transports=["grpc", "grpc+rest", "grpc+rest", "rest"],
+    # the shapes of the bug-hunt sessions (post-pass: every other choice of a request stays what it was)
+    p_empty_routing=0.2, p_routing_shorthand=0.2, p_keyword_update_field=0.2, p_struct_fields=0.2, p_mixin_mixed_body=0.2,
+    p_mistyped_max_results=0.2, p_streamed_list=0.2, p_nested_lro_types=0.2, p_mixin_in_service_config=0.2, p_cstream_of_empty=0.2)
 
 BUDGET = {"quick": {"requests": 14, "envs": 8, "wall_cap": 420},
           "thorough": {"requests": 300, "envs": 16, "wall_cap": 3000}}
